@@ -222,6 +222,82 @@ func ruleR8(c *Ctx) *RuleResult {
 					}
 				}
 			}
+			// an error that is not the decoder's own (whose non-nil case the guards above exclude) must not be returned once
+			// the receiver has been written: "when it returns an error the container is exactly as it was"
+			for _, b := range fn.Blocks {
+				if len(b.Instrs) == 0 {
+					continue
+				}
+				ret, ok := b.Instrs[len(b.Instrs)-1].(*ssa.Return)
+				if !ok || len(ret.Results) == 0 {
+					continue
+				}
+				ev := ret.Results[len(ret.Results)-1]
+				if cst, isC := ev.(*ssa.Const); isC && cst.IsNil() {
+					continue
+				}
+				isDecodeErr := func(v ssa.Value) bool {
+					for _, d := range j.decodes {
+						if v == ssa.Value(d) {
+							return true
+						}
+						if ex, ok := v.(*ssa.Extract); ok && ex.Tuple == ssa.Value(d) {
+							return true
+						}
+					}
+					return false
+				}
+				var onlyDecode func(v ssa.Value, depth int) bool
+				onlyDecode = func(v ssa.Value, depth int) bool {
+					if depth > 4 {
+						return false
+					}
+					if cst, isC := v.(*ssa.Const); isC && cst.IsNil() {
+						return true
+					}
+					if isDecodeErr(v) {
+						return true
+					}
+					if ph, ok := v.(*ssa.Phi); ok {
+						for _, e2 := range ph.Edges {
+							if !onlyDecode(e2, depth+1) {
+								return false
+							}
+						}
+						return true
+					}
+					return false
+				}
+				if onlyDecode(ev, 0) {
+					continue
+				}
+				for _, in := range effs {
+					if call, ok := in.(*ssa.Call); ok && stdCalleeName(p, &call.Call) == "encoding/json.Unmarshal" {
+						continue
+					}
+					seen := map[*ssa.BasicBlock]bool{}
+					var reach func(x *ssa.BasicBlock) bool
+					reach = func(x *ssa.BasicBlock) bool {
+						if x == b {
+							return true
+						}
+						if seen[x] {
+							return false
+						}
+						seen[x] = true
+						for _, sx := range x.Succs {
+							if reach(sx) {
+								return true
+							}
+						}
+						return false
+					}
+					if reach(in.Block()) {
+						badB = append(badB, fmt.Sprintf("an error other than the decoder's is returned at %s after %s at %s has already written the receiver (not atomic on error)", p.InstrPos(ret), instrDesc(p, in), p.InstrPos(in)))
+						break
+					}
+				}
+			}
 			if len(badB) > 0 {
 				put("R8b", clB, Violated, strings.Join(badB, "\n"))
 			} else {
@@ -230,7 +306,58 @@ func ruleR8(c *Ctx) *RuleResult {
 			// R8c / R8d
 			var clears, inserts []ssa.Instruction
 			var badD []string
+			// Clear() written out: the receiver's own Clear is nothing but stores of constants into receiver fields, and the
+			// loader performs exactly those stores (same fields, same constants) in one block
+			clearGroup := map[ssa.Instruction]bool{}
+			var clearGroupList []ssa.Instruction
+			if own := methodsOf(p, ct)["Clear"]; own != nil && own.Blocks != nil {
+				constStores := func(f *ssa.Function) (map[int]string, bool) {
+					out := map[int]string{}
+					for _, in := range receiverEffects(e, f) {
+						st, ok := in.(*ssa.Store)
+						if !ok {
+							return nil, false
+						}
+						fa, ok := stripChange(st.Addr).(*ssa.FieldAddr)
+						cst, isC := st.Val.(*ssa.Const)
+						if !ok || !isC || stripChange(fa.X) != ssa.Value(f.Params[0]) {
+							return nil, false
+						}
+						out[fa.Field] = cst.String()
+					}
+					return out, len(out) > 0
+				}
+				if want, ok := constStores(own); ok {
+					byBlock := map[*ssa.BasicBlock]map[int]ssa.Instruction{}
+					for _, in := range effs {
+						st, ok := in.(*ssa.Store)
+						if !ok {
+							continue
+						}
+						fa, ok := stripChange(st.Addr).(*ssa.FieldAddr)
+						cst, isC := st.Val.(*ssa.Const)
+						if !ok || !isC || stripChange(fa.X) != ssa.Value(fn.Params[0]) || want[fa.Field] != cst.String() {
+							continue
+						}
+						if byBlock[in.Block()] == nil {
+							byBlock[in.Block()] = map[int]ssa.Instruction{}
+						}
+						byBlock[in.Block()][fa.Field] = in
+					}
+					for _, grp := range byBlock {
+						if len(grp) == len(want) {
+							for _, in := range grp {
+								clearGroup[in] = true
+								clearGroupList = append(clearGroupList, in)
+							}
+						}
+					}
+				}
+			}
 			for _, in := range effs {
+				if clearGroup[in] {
+					continue
+				}
 				call, isCall := in.(*ssa.Call)
 				if isCall && stdCalleeName(p, &call.Call) == "encoding/json.Unmarshal" {
 					continue
@@ -257,6 +384,33 @@ func ruleR8(c *Ctx) *RuleResult {
 								}
 								if fw := forwardInfo(m); fw != nil && fw.Field == f && origin(fw.Callee) == origin(cal) {
 									same = true
+								}
+							}
+							if !same {
+								// … or that one of the receiver's insertion methods does nothing to the receiver but call
+								// that callee on that field (Add(items...) = tree.Put(item, …) per item)
+								for nm, m := range methodsOf(p, ct) {
+									if !insertionNames[nm] || !token.IsExported(nm) || m.Blocks == nil {
+										continue
+									}
+									only, some := true, false
+									for _, ein := range receiverEffects(e, m) {
+										ec, isC := ein.(*ssa.Call)
+										if !isC {
+											only = false
+											continue
+										}
+										ecal := StaticCallee(&ec.Call)
+										ef, okef := recvField(m, ec.Call.Args[0])
+										if ecal == nil || !okef || ef != f || origin(ecal) != origin(cal) {
+											only = false
+										} else {
+											some = true
+										}
+									}
+									if only && some {
+										same = true
+									}
 								}
 							}
 							if same {
@@ -313,6 +467,15 @@ func ruleR8(c *Ctx) *RuleResult {
 					if cl == ins || mustPrecede(cl, ins) {
 						ok = true
 					}
+				}
+				if !ok && len(clearGroupList) > 0 {
+					all := true
+					for _, cl := range clearGroupList {
+						if !mustPrecede(cl, ins) {
+							all = false
+						}
+					}
+					ok = all
 				}
 				if !ok {
 					badC = append(badC, fmt.Sprintf("%s at %s is not preceded on every path by a call to the receiver's Clear", instrDesc(p, ins), p.InstrPos(ins)))
@@ -632,6 +795,11 @@ func ruleR9(c *Ctx) *RuleResult {
 				cal := StaticCallee(&call.Call)
 				if cal != nil && cal == ms["Values"] && len(call.Call.Args) == 1 && stripChange(call.Call.Args[0]) == ssa.Value(to.fn.Params[0]) {
 					stB, factsB = Discharged, "(i) json.Marshal(recv.Values())"
+				} else if fv := forwardInfo(ms["Values"]); cal != nil && fv != nil && origin(fv.Callee) == origin(cal) && len(call.Call.Args) == 1 && func() bool {
+					f, ok := recvField(to.fn, call.Call.Args[0])
+					return ok && f == fv.Field
+				}() {
+					stB, factsB = Discharged, "(i') json.Marshal(recv."+fieldName(to.fn, fv.Field)+"."+cal.Name()+"()), the very call Values() forwards to"
 				} else {
 					stB, factsB = Violated, "json.Marshal of a call result that is not the receiver's Values()"
 				}
